@@ -71,7 +71,20 @@ func SetupServer(issuer string, storage Storage, logger *slog.Logger, wrapServer
 
 	handler := http.Handler(provider)
 	if wrapServer {
-		handler = op.RegisterLegacyServer(op.NewLegacyServer(provider, *op.DefaultEndpoints), op.AuthorizeCallbackHandler(provider))
+		// the legacy server serves the endpoints configured on the provider
+		// (the custom authorization endpoint included), not the package defaults.
+		endpoints := op.Endpoints{
+			Authorization:       provider.AuthorizationEndpoint(),
+			Token:               provider.TokenEndpoint(),
+			Introspection:       provider.IntrospectionEndpoint(),
+			Userinfo:            provider.UserinfoEndpoint(),
+			Revocation:          provider.RevocationEndpoint(),
+			EndSession:          provider.EndSessionEndpoint(),
+			CheckSessionIframe:  provider.CheckSessionIframe(),
+			JwksURI:             provider.KeysEndpoint(),
+			DeviceAuthorization: provider.DeviceAuthorizationEndpoint(),
+		}
+		handler = op.RegisterLegacyServer(op.NewLegacyServer(provider, endpoints), op.AuthorizeCallbackHandler(provider))
 	}
 
 	// we register the http handler of the OP on the root, so that the discovery endpoint (/.well-known/openid-configuration)
